@@ -202,11 +202,7 @@ bool OPNMIDIplay::LoadMIDI_post()
     m_chipChannels.resize(synth.m_numChannels);
     resetMIDIDefaults();
 #ifdef OPNMIDI_MIDI2VGM
-    m_sequencerInterface->onloopStart = synth.m_loopStartHook;
-    m_sequencerInterface->onloopStart_userData = synth.m_loopStartHookData;
-    m_sequencerInterface->onloopEnd = synth.m_loopEndHook;
-    m_sequencerInterface->onloopEnd_userData = synth.m_loopEndHookData;
-    m_sequencer->setLoopHooksOnly(m_sequencerInterface->onloopStart != NULL);
+    setupLoopHooks();
 #endif
 
     return true;
